@@ -433,6 +433,64 @@ fn indexed_reader(ctx: &mut Ctx, sub: u64) {
     }
 }
 
+/// The multithreaded reader on the same layouts (empty members mid-file included): reading to the end
+/// delivers the flat bytes, and a seek to the virtual position of any flat offset followed by a read
+/// returns the bytes from that offset on.
+fn mt_reader(ctx: &mut Ctx, sub: u64) {
+    use bgzf::io::Seek as _;
+    let mut rng = Rng::new(sub);
+    let case = format!("mt {sub}");
+    let (file, layout) = gen_file(&mut rng);
+    let t = table(&layout);
+    let total = t.flat.len();
+    if total > 400_000 {
+        return;
+    }
+    ctx.eval(Some(fnv(case.as_bytes())));
+    let flat = t.flat.clone();
+    // (compressed offset, in-block offset) of the first byte of every non-empty member, and of a few inner bytes
+    let mut targets: Vec<(u64, u16, usize)> = vec![];
+    let mut c = 0u64;
+    let mut o = 0usize;
+    for b in &layout {
+        if !b.data.is_empty() {
+            targets.push((c, 0, o));
+            let u = rng.below(b.data.len() as u64) as usize;
+            targets.push((c, u as u16, o + u));
+        } else {
+            // the canonical position of the byte after an empty member is also (this member, 0)
+            targets.push((c, 0, o));
+        }
+        c += b.csize as u64;
+        o += b.data.len();
+    }
+    let got = guarded(|| -> std::io::Result<Result<(), String>> {
+        let mut r = bgzf::io::MultithreadedReader::new(Cursor::new(file.clone()));
+        let mut all = vec![];
+        r.read_to_end(&mut all)?;
+        if all != flat {
+            return Ok(Err(format!("read_to_end delivered {} bytes, the members hold {}", all.len(), flat.len())));
+        }
+        for &(c, u, o) in &targets {
+            r.seek_to_virtual_position(bgzf::VirtualPosition::try_from((c, u)).unwrap())?;
+            let want = &flat[o..flat.len().min(o + 300)];
+            let mut buf = vec![0u8; want.len()];
+            r.read_exact(&mut buf)?;
+            if buf != want {
+                return Ok(Err(format!("after a seek to ({c},{u}) = flat offset {o} the reader delivers other bytes than the file holds there")));
+            }
+        }
+        r.finish().map(|_| ())?;
+        Ok(Ok(()))
+    });
+    match got {
+        Ok(Ok(Ok(()))) => ctx.bump("mt_reader_ok"),
+        Ok(Ok(Err(text))) => ctx.fail("mt-reader-flat", format!("{text}; layout {}", fmt_layout(&layout)), case),
+        Ok(Err(e)) => ctx.fail("mt-reader-flat", format!("the multithreaded reader failed on a well-formed file: {e}; layout {}", fmt_layout(&layout)), case),
+        Err(p) => ctx.fail("mt-reader-flat", format!("the multithreaded reader panicked: {p}; layout {}", fmt_layout(&layout)), case),
+    }
+}
+
 fn case_of(sub: u64) -> (Vec<u8>, Vec<Blk>, Vec<Op>) {
     let mut rng = Rng::new(sub);
     let (file, layout) = gen_file(&mut rng);
@@ -451,6 +509,7 @@ pub fn run(ctx: &mut Ctx) {
             }
             Some("writer-tell") => writer_tell(ctx, sub),
             Some("indexed") => indexed_reader(ctx, sub),
+            Some("mt") => mt_reader(ctx, sub),
             _ => {}
         }
         return;
@@ -490,6 +549,7 @@ pub fn run(ctx: &mut Ctx) {
     for it in 0..n {
         writer_tell(ctx, ctx.seed.wrapping_mul(77).wrapping_add(it));
         indexed_reader(ctx, ctx.seed.wrapping_mul(79).wrapping_add(it));
+        mt_reader(ctx, ctx.seed.wrapping_mul(83).wrapping_add(it));
     }
     ctx.sample(|| "c02 ops 35:6e6f6f646c6573,28:-,31:62677a66,28:- r3,t,s0/5,x4,b,c2,u8,r65536".into());
 }
